@@ -108,7 +108,9 @@ Inductive case :=
 | CQueue (cap h0 : N) (ops : list qop) (att : list (N * N * bool)) (applied : list N) (lenlog : list Z)
          (snaps : list (N * Z)) (height : N) (stopped : bool)
 | CQStress (top height napplied : N)
-| CSync (root : N) (T : tree) (ops : list sop) (obs : list sobs).
+(* [blks]: blocks offered in the blocks stage under the genuine header: variant (0 genuine, 1 stripped, 2 one transaction
+   dropped, 3 reordered, 4 one replaced), transactions of the source block, transactions delivered, accepted *)
+| CSync (root : N) (T : tree) (ops : list sop) (obs : list sobs) (blks : list (N * N * N * bool)).
 
 Definition check_case (c : case) : N :=
   match c with
@@ -128,7 +130,7 @@ Definition check_case (c : case) : N :=
       if m && s then 0 else if s then 1 else 2
   | CQStress top hf napp =>
       if (hf =? top) && (napp =? top) then 0 else 2
-  | CSync root T ops obs =>
+  | CSync root T ops obs blks =>
       let fuel := S (S (length T)) in
       let go := fun (cf : bool * bool) => srun (fst cf) (snd cf) fuel T root (Some (Restore.init root)) ops obs in
       let m := existsb go [(false, false); (true, false); (false, true); (true, true)] in
@@ -140,6 +142,9 @@ Definition check_case (c : case) : N :=
         | Some [] => forallb (fun hn => delivered_canon ops (fst hn)) T
         | _ => true
         end in
-      let s := nopanic && complete_ok in
+      (* blocks stage (Sync/Blocks.v add_block with the transaction list as its own Merkle commitment): the genuine
+         list is accepted, any other list under the genuine header is refused *)
+      let blk_ok := forallb (fun x => let '(v, _, _, a) := x in Bool.eqb a (v =? 0)) blks in
+      let s := nopanic && complete_ok && blk_ok in
       if m && s then 0 else if s then 1 else 2
   end.
